@@ -33,6 +33,17 @@ Proof.
   - apply (conv_type v); [discriminate | exact H].
 Qed.
 
+Lemma append_conv_has_type t v r : append_conv t v = Some r -> has_type t r.
+Proof.
+  destruct t as [| | n s w | | e]; cbn; intro H.
+  - injection H as <-. eexists; reflexivity.
+  - destruct v; try discriminate; injection H as <-; reflexivity.
+  - destruct v; try discriminate; injection H as <-; reflexivity.
+  - destruct v; try discriminate; injection H as <-; reflexivity.
+  - destruct v as [| | | |l]; try discriminate.
+    destruct (Convert.map_opt (append_conv e) l); [|discriminate]. injection H as <-. reflexivity.
+Qed.
+
 (* ---- list cells ---- *)
 Lemma l_set_length l i x : List.length (l_set l i x) = List.length l.
 Proof. revert i. induction l as [|y r IH]; intros [|i]; cbn; auto. Qed.
@@ -143,7 +154,7 @@ Proof.
     + apply Forall_app. split; [exact H | constructor; [exact E | constructor]].
     + apply l_set_forall; assumption.
   - destruct ((i <? 0) || (Z.of_nat (List.length l) <=? i)); [exact H|]. destruct (nth_error l (Z.to_nat i)); exact H.
-  - destruct (conv v e) as [x|] eqn:E; [|exact H]. apply conv_has_type in E. cbn.
+  - destruct (append_conv e v) as [x|] eqn:E; [|exact H]. apply append_conv_has_type in E. cbn.
     apply Forall_app. split; [exact H | constructor; [exact E | constructor]].
   - destruct (conv k kt) as [k'|] eqn:Ek; [|exact H]. destruct (conv v et) as [v'|] eqn:Ev; [|exact H].
     apply conv_has_type in Ek. apply conv_has_type in Ev. cbn. cbn in H.
@@ -176,7 +187,7 @@ Proof.
   destruct c as [e l | kt et m | fs], o; cbn [tstep]; try reflexivity.
   - destruct ((i <? 0) || (Z.of_nat (List.length l) <? i)); [reflexivity|]. destruct (conv v e); [|reflexivity]. cbn. discriminate.
   - destruct ((i <? 0) || (Z.of_nat (List.length l) <=? i)); [reflexivity|]. destruct (nth_error l (Z.to_nat i)); reflexivity.
-  - destruct (conv v e); [|reflexivity]. cbn. discriminate.
+  - destruct (append_conv e v); [|reflexivity]. cbn. discriminate.
   - destruct (conv k kt); [|reflexivity]. destruct (conv v et); [|reflexivity]. cbn. discriminate.
   - destruct (conv k kt) as [k'|]; [|reflexivity]. destruct (m_get m k'); reflexivity.
   - destruct (conv k kt); [|reflexivity]. cbn. discriminate.
